@@ -79,9 +79,15 @@ class _Op:
         self.alg = alg
         self.dir = direction
         self.left = None
+        self.buf = None          # a context keeps the bytes of an incomplete block and continues from them at the next update()
+        self.done = False
 
     def update(self, data):
+        if self.done:
+            raise ValueError('Context was already finalized.')
         data = SymBytes.of(data)
+        if self.buf is not None and len(self.buf):
+            data = self.buf + data
         n = len(data)
         bs = self.alg.block
         whole = (n // bs) * bs
@@ -91,9 +97,13 @@ class _Op:
             res = apply_cipher(self.alg, self.dir, blk.bv())
             out += HexInt.from_bv(res).nibs
         self.left = n - whole
+        self.buf = data[whole:n] if n > whole else None
         return SymBytes(out)
 
     def finalize(self):
+        if self.done:
+            raise ValueError('Context was already finalized.')
+        self.done = True
         if self.left:
             raise ValueError('The length of the provided data is not a multiple of the block length.')
         return b''
